@@ -15,6 +15,9 @@ var verifOptQueries = []string{
 	`foo{a!="x"} + on(a) bar`,
 	`max_over_time(foo{b=""}[2m]) - on(a) foo`,
 	`foo{a="x", b="1"} / on(a) foo{a="x"}`,
+	`foo{a="x"} @ 100 + on(a) foo`,
+	`foo{a="x"} offset 30s + on(a) foo`,
+	`foo{b="1"} @ end() - on(b) foo`,
 }
 
 // VerifH09p: whole pipeline: a query run with the default optimizers (matcher sorting,
@@ -63,6 +66,9 @@ var verifHintQueriesS = []string{
 	`sum by (a) (foo) + on(a) foo{a="x"}`,
 	`last_over_time(foo[1m]) + on(a, b) foo`,
 	`foo{a="x"} - on(a) max_over_time(foo[2m])`,
+	// the same selector twice with equal start but different end of the selected range
+	`foo @ start() - foo`,
+	`foo - foo @ start()`,
 }
 
 // VerifH16s: sufficiency of the hinted time range, with and without plan rewrites: the
